@@ -19,6 +19,7 @@ RULE = ("Hypothesis: original (well-formed, 2 channels, any construction route /
         "still agree, and no message object is shared between the two sides. Non-trivial: the op lists contain an operation "
         "that mutates message objects in place (transpose, set_channel, scale, iterator edits). Distinct by case digest.")
 RULE = RULE + " Rounds e-g: capacities ending on the final tick with a non-note event there, empty capacity lists, INTERNAL markers among the ops, bars edited before they are copied."
+RULE = RULE + " Round i: pre-copy edits applied after the Track / Composition was built, incl. two different program changes."
 ASSUMPTIONS = ["an operation that raises on one side ends that side's op list; the other side is still compared"]
 TIERS = {"quick": dict(shards=8, examples=500, alt_ppqn=[480], alt_shards=2),
          "thorough": dict(shards=16, examples=6000, alt_ppqn=[480, 7, 1000], alt_shards=2)}
@@ -56,7 +57,7 @@ def _case(draw):
             # bar / track / composition routes: the bar was edited after its creation and before it is copied (edits that keep it
             # a valid bar, and edits after which the constructor's checks no longer pass: then copy() either refuses or must
             # still return an independent value)
-            "pre_edit": draw(st.sampled_from([None, None, None, "pad_over", "scale2", "extra_ts", "transpose1"])),
+            "pre_edit": draw(st.sampled_from([None, None, None, "pad_over", "scale2", "extra_ts", "transpose1", "two_programs"])),
             "requant": draw(st.booleans()), "key": draw(st.one_of(st.none(), st.sampled_from(gens.KEYS))),
             "first": draw(st.sampled_from(["derived", "original"])),
             "ops1": draw(st.lists(ops.op_strategy(ops.MUTATOR_OPS), min_size=1, max_size=4)),
@@ -137,8 +138,11 @@ def check(case):
             originals, derived = srcs, [b.sequence for bars in tb for b in bars]
         else:
             tb = Sequence.sequences_split_bars([s.copy() for s in srcs], 0, quantise_note_lengths=case["requant"])
-            pre = case.get("pre_edit")
-            if pre:
+            def _pre_edit():
+                pre = case.get("pre_edit")
+                if not pre:
+                    return
+                from pbt.sut import Message, MT
                 out.label("edited-before-copy:" + pre)
                 s0 = tb[0][0].sequence
                 if pre == "pad_over":
@@ -146,26 +150,30 @@ def check(case):
                 elif pre == "scale2":
                     s0.scale(2, quantise_afterwards=False)
                 elif pre == "extra_ts":
-                    from pbt.sut import Message, MT
                     s0.add_absolute_message(Message(message_type=MT.TIME_SIGNATURE, numerator=5, denominator=8, time=3))
-                elif pre == "set_channel":
-                    s0.set_channel(5)
+                elif pre == "two_programs":
+                    s0.add_absolute_message(Message(message_type=MT.PROGRAM_CHANGE, program=3, time=0))
+                    s0.add_absolute_message(Message(message_type=MT.PROGRAM_CHANGE, program=40, time=1))
                 else:
                     s0.transpose(1)
+
             if route == "bar_copy":
                 bar = tb[0][0]
                 bar.key_signature = Key(case["key"]) if case["key"] else None
+                _pre_edit()
                 cpy = bar.copy()
                 originals, derived = [bar.sequence], [cpy.sequence]
                 attrs = ((bar.time_signature_numerator, bar.time_signature_denominator, bar.key_signature),
                          (cpy.time_signature_numerator, cpy.time_signature_denominator, cpy.key_signature))
             elif route == "track_copy":
                 track = Track(tb[0], name="t")
+                _pre_edit()          # (the bar is edited after the track was built from it)
                 cpy = track.copy()
                 originals, derived = [b.sequence for b in track.bars], [b.sequence for b in cpy.bars]
                 attrs = ((len(track.bars), track.name), (len(cpy.bars), cpy.name))
             else:
                 comp = Composition([Track(bars) for bars in tb])
+                _pre_edit()
                 cpy = comp.copy()
                 originals = [b.sequence for t in comp.tracks for b in t.bars]
                 derived = [b.sequence for t in cpy.tracks for b in t.bars]
